@@ -247,6 +247,11 @@ def _conclude(mod, tier, seed, specs, results, problems, stopped_by, t0):
     for k in sorted(sets):
         print(f"  distinct {k} = {len(sets[k])}")
     if viol_unknown:
+        kc = {}
+        for _, v in viol_unknown:
+            kc[v["key"]] = kc.get(v["key"], 0) + 1
+        for k in sorted(kc):
+            print(f"  violation-key {k} x{kc[k]}")
         shown = set()
         for v, path in replay_paths:
             print(f"VIOLATION property={prop} replay={path}")
